@@ -250,6 +250,15 @@ def follower_loads(vk, cfg):
         tangent_obligations(vk, rk, Kk, unknowns(fc), symmetric=False, label="pressure-keyword/")
         p1 = ring.var("pressure") if vk.sym else vk.point["pressure"]
         vk.ensures_eq("pressure-keyword/vector*p==vector(p)*p2", rk * p1, r * p2)
+        # the keyword must act on the very call it is passed to -- also when the MATRIX is the first call
+        # with the new value (no vector call with it before)
+        p3 = vk.real_scalar("pressure3", near=3.0)
+        if vk.sym:
+            with coo.bound():
+                K3 = coo.todense(item.assemble.matrix(pressure=p3))
+        else:
+            K3 = coo.todense(item.assemble.matrix(pressure=p3))
+        vk.ensures_eq("pressure-keyword/matrix-first: matrix(p3)*p2==matrix(p2)*p3", K3 * p2, Kk * p3)
 
 
 @contract("C01", "constraints_and_loads", configs=[dict(item=i) for i in ("mpc", "mpc-skip", "mpc-center-in-points", "contact-closed", "contact-open", "contact-zero-initial-gap", "pointload", "pointload-axi", "bodyforce", "gravity")])
